@@ -35,7 +35,9 @@ TRUSTED_BASE = [
     "reference encoders tools/harness/props/c03_enc.py (each compared with its Lean twin Spec/FilterEnc.lean on every case)",
     "hand models lean/PdfVerif/Model/Filters.lean (decoders, predictors, filter pipeline, stream delimitation), "
     "tied to pdfminer by differential correspondence on valid and corrupted inputs",
-    "tools/translate (Python ast -> Lean) for paeth_predictor, the LITERALS_* filter-name tuples and _DECODE_ERRORS",
+    "tools/translate (Python ast -> Lean) for paeth_predictor, the LITERALS_* filter-name tuples, _DECODE_ERRORS, the "
+    "constants / straight-line arithmetic of lzw.py, runlength.py, apply_png_predictor, apply_tiff_predictor and the "
+    "`endstream` marker + Length clamp of pdfparser.py (all linked to the model by proved theorems or used by it directly)",
     "zlib (Flate) is an abstract inverse pair in Lean; the driver receives zlib's results from the harness",
     "base64.a85decode (CPython) is modelled by hand from its source",
     "shared PDF writer tools/harness/pdfwriter.py for the generated files",
@@ -43,7 +45,8 @@ TRUSTED_BASE = [
 ASSUMPTIONS = [
     "zlib.decompress(zlib.compress(x)) == x",
     "Length equals the payload length (the property's domain); EOL after `stream` is LF or CRLF, or a lone CR only "
-    "when the payload does not begin with LF (ISO 32000-1 7.3.8.1)",
+    "when the payload does not begin with LF (ISO 32000-1 7.3.8.1); in fallback mode (rebuilt xref, Length ignored) "
+    "the payload does not contain `endstream` and the keyword's line is complete",
     "white space emitted by the reference encoders inside ASCIIHex is one of Python's \\s bytes and inside ASCII85 one "
     "of ' \\t\\n\\r\\v' (NUL / FF inside ASCII85 data are not generated)",
     "predictor parameters are attached to LZW/Flate stages (ISO 32000-1 Table 8) in the property domain",
@@ -69,6 +72,19 @@ STATEMENT_STATUS: Dict[str, str] = {
     "stream_decode_handler": "proved: decode()'s handler for decoder-internal errors keeps every successful decode and "
                              "only substitutes the empty string",
     "stream_delim": "proved: payload delimited exactly for LF / CRLF (and CR not followed by LF), any payload bytes, Length = |payload|",
+    "lzw_translated/rl_translated/png_translated/tiff_translated": "proved: every hand-written constant / row formula of the "
+        "LZW, RunLength, PNG and TIFF models equals the definition regenerated from lzw.py / runlength.py / utils.py "
+        "(nbitsAfter, pngNbytes, pngBpp are used by the model directly)",
+    "stream_read_exact": "proved: whole stream branch (streamRead), Length = |payload|: rawdata = payload (any bytes) and the "
+        "parser resumes exactly at `endstream`, any marker-free bytes in between",
+    "stream_fallback_delim": "proved: fallback mode (Length ignored, any value): rawdata = bytes up to the first `endstream`, "
+        "for every marker-free payload, any line ends inside it",
+    "stream_scan_delim/stream_marker_free/scan_fuel": "proved: the endstream scan loop passes over exactly d; hypothesis = "
+        "`endstream` does not occur in d (the marker has no border); the scan's fuel suffices",
+    "stream_read_payload": "proved: streamRead's payload = streamPayload for every file/position/Length (clamp: negative or "
+        "missing Length reads nothing, a too large one stops at the end of the file)",
+    "stream_shared_parms_rt/stream_single_rt": "proved: Filter array with ONE DecodeParms dictionary (or none) for all "
+        "filters, and the single forms (Filter a name, DecodeParms a dictionary or absent)",
 }
 
 CLASSIFIERS = {
